@@ -8,22 +8,20 @@ CORR_MODULES = ["Cache.FilterCorr"]
 PREFIX = "C26"
 CASE_TYPE = "C26_case"
 HARNESS = "cft"
-KNOWN = {1: "C26-batch-dropped", 2: "C26-param-index-ignored"}
+KNOWN = {}
 RULE = ("one case = one simulated two-participant scenario through the public async API: a writer on the related "
         "topic, 1-4 readers of one subscriber (content-filtered or plain), 1-8 written/disposed changes delivered "
         "in a chosen arrival grouping (several DATA submessages merged into one datagram per group), then read() "
         "on every reader; distinct = distinct scenario line; non-trivial = at least one content-filtered reader in "
         "the supported forms rejects at least one sample and presents at least one")
-TRUSTED = ["theories/Cache/FilterModel.v is a hand transcription of communication_methods.rs:46-367 (filter evaluation "
+TRUSTED = ["theories/Cache/FilterModel.v is a hand transcription of communication_methods.rs:46-375 (filter evaluation "
            "and per-reader batch loop) with add_reader_change abstracted for KEEP_ALL / unlimited / shared ownership",
            "harness/src/bin/cft.rs `netg` builds the multi-DATA datagrams by concatenating the submessages of the "
            "datagrams the real writer produced (dust-dds writers themselves send one DATA per datagram)"]
 ASSUMPTIONS = ["filter expressions are ASCII (split_once/trim are modelled on bytes)",
                "supported forms: `member <= %n` and `member = %n` on int32 and string members; every other expression "
                "(>=, <, >, <>, literals, AND/OR, other member kinds -> todo!()) is outside the property's domain",
-               "reader QoS KEEP_ALL, unlimited resource limits, no time-based filter (so a passing sample is always stored)",
-               "exactness under arbitrary grouping is claimed outside the lossy class only (known finding C26-batch-dropped); "
-               "expressions naming a parameter other than %0 are known finding C26-param-index-ignored"]
+               "reader QoS KEEP_ALL, unlimited resource limits, no time-based filter (so a passing sample is always stored)"]
 
 I32MIN, I32MAX = -2**31, 2**31 - 1
 INT_FIELDS = ["num", "aux"]
@@ -102,7 +100,7 @@ def odd_filter(r):
     if k == 7:
         return ("%s <= %%3" % f, p)                   # index beyond the parameters
     if k == 8:
-        return ("%s = %%" % f, p)
+        return (r.choice(["%s = %%", "%s = %%+0", "%s <= %%99999999999999999999999", "%s = %%-0", "%s = %% 0", "%s = %%0x"]) % f, p)
     return ("Num = %0", [str(gen_int_param(r))])    # member names are case-sensitive
 
 
@@ -113,12 +111,12 @@ def panic_filter(r):
     if k == 1:
         return ("small <= %0", ["1"])                 # INT16 member: todo!()
     if k == 2:
-        return ("num = %0", [])                       # expression_parameters[0] out of bounds
+        return ("num = %0", [])                       # no parameter 0: rejected (was an index panic before 88b96b4)
     if k == 3:
         return ("num <= %0", [r.choice(["", " 5", "5 ", "abc", "2147483648", "-2147483649", "+", "-", "1e3", "0x10", "5.0", "+-5"])])
     if k == 4:
         return ("name = %0", [])
-    return ("aux = %1", ["x", "5"])                   # class 2 + parse of the wrong parameter
+    return ("aux = %1", ["x", "5"])                   # parameter 1 is the number (parameter 0 is not parsed any more)
 
 
 def gen_ops(r, n, piv_i, piv_s):
@@ -181,7 +179,7 @@ def gen(r, tier):
                     readers.append(odd_filter(r))
             piv = piv or (5, "RED")
         elif k < 0.87:
-            # parameter index other than 0 (class 2) among ordinary readers
+            # parameter index other than 0 among ordinary readers
             e, p, pi, ps = supported_filter(r, 3)
             readers = [(e, p)] + [None] * (nread - 1)
             piv = (pi, ps)
@@ -199,13 +197,13 @@ def gen(r, tier):
 def corpus():
     w = lambda i, n: ("w", i, n, "ab", 0, "", 0)
     return [
-        # D4: [fail; pass] in one group loses the passing sample
+        # regression (C26-batch-dropped, fixed c4677f2): [fail; pass] in one group lost the passing sample
         ([("num <= %0", ["5"]), None], [w(1, 9), w(1, 4)], [2], 1),
         # same samples one per step: fine
         ([("num <= %0", ["5"]), None], [w(1, 9), w(1, 4)], [1, 1], 1),
         # pass; fail; pass with grouping [1,2]
         ([("num <= %0", ["5"])], [w(1, 3), w(2, 9), w(1, 4)], [1, 2], 1),
-        # parameter index ignored
+        # regression (C26-param-index-ignored, fixed 88b96b4)
         ([("num = %1", ["3", "9"])], [w(1, 3), w(2, 9)], [1, 1], 1),
         # the test of the repository
         ([("name = %0", ["RED"])], [("w", 1, 0, "RED", 0, "", 0), ("w", 2, 0, "BLUE", 0, "", 0)], [1, 1], 1),
@@ -358,16 +356,15 @@ def distribution(cases, outs):
 MANIFEST = {
     "text": ("Machine-checked proof (Coq) over a model of the content-filter evaluation and the per-reader batch loop of "
              "process_user_defined_received_cache_changes: the evaluator computes the `member <= %n` / `member = %n` "
-             "predicate for int32 and string members whenever the expression names %0; for every list of samples and every "
-             "arrival grouping the reader presents only passing samples, in order, and exactly the passing ones unless a "
-             "group contains a rejected sample followed by a passing one — in which case the unchanged code loses the "
-             "passing sample (witness batch [fail; pass], reproduced on the real stack in simulation; known finding). "
-             "The same theorem is proved unconditionally for the proposed one-token patch. The model is tied to the code by "
-             "running whole-stack simulated scenarios (real writer, readers, RTPS messages; several DATA submessages per "
-             "datagram) and comparing every read() result with the model inside Coq."),
-    "note": ("Trusted: Coq kernel + vm_compute; hand model FilterModel.v; the simulator harness. Axioms: none. Known "
-             "findings: C26-batch-dropped (continue 'data_readers drops the rest of the batch), C26-param-index-ignored "
-             "(the code always compares with expression parameter 0). Expressions outside the two supported forms are "
-             "outside the domain (several of them panic the worker through todo!()/expect)."),
+             "predicate for int32 and string members for every parameter index n within the parameter list; for every "
+             "list of samples and EVERY arrival grouping the reader presents exactly the samples that satisfy the filter, "
+             "in order (so a failing sample never costs a passing one), and a reader on the plain topic presents all. "
+             "The model is tied to the code by running whole-stack simulated scenarios (real writer, readers, RTPS "
+             "messages; several DATA submessages per datagram, 1-4 readers per subscriber) and comparing every read() "
+             "result with the model inside Coq; the property oracle is applied to the implementation's own output."),
+    "note": ("Trusted: Coq kernel + vm_compute; hand model FilterModel.v; the simulator harness. Axioms: none. The two "
+             "defects found here (C26-batch-dropped, C26-param-index-ignored) are fixed in /repo (c4677f2, 88b96b4) and "
+             "kept as regression cases. Expressions outside the two supported forms are outside the domain (members "
+             "of other kinds panic the worker through todo!(), a non-numeric parameter for an int32 member through expect)."),
     "technique": "Coq proof (induction over the arrival groups) + whole-stack simulation correspondence with oracle in Coq",
 }
